@@ -568,6 +568,22 @@ fn c20_dom<D: Dom>(cx: &RunCtx) {
         subs.push(e.to_string());
         subs.push(format!("-({})", e));
     }
+    // one more operation on an operand at the edge (a function or operator that inspects its argument's
+    // expression — "the whole part of an Integer quotient" — instead of its value shows on these)
+    let edge: Vec<&str> = match D::EV {
+        Ev::I64 | Ev::Num => vec!["9223372036854775807", "(-9223372036854775807-1)", "9007199254740993", "4611686018427387905", "3037000501"],
+        Ev::F64 => vec!["9007199254740993", "(2^1023)", "(2^-1074)", "0.1"],
+        Ev::Dec => vec!["7922816251426433759354395033", "0.0000000000000000000000000003", "1.10"],
+        Ev::Cpx => vec!["(1+i)", "(2i)"],
+    };
+    for b in edge {
+        for op in ["/2", "/3", "/7", "*2", "*3", "-1", "+1", "%7", "^2"] {
+            if op.starts_with('%') && !D::EV.has_percent() {
+                continue;
+            }
+            subs.push(format!("{}{}", b, op));
+        }
+    }
     contexts.sort();
     contexts.dedup();
     subs.sort();
